@@ -153,7 +153,7 @@ def _drive(texts, schedule, entry, gate, Lx, mine):
         with gate.cv:
             # wait until every live parser is parked at the gate (or finished) and nobody is mid-step
             while gate.busy or any((not done[i]) and (ths[i] not in gate.waiting) for i in range(len(ths))):
-                if not gate.cv.wait(timeout=20):
+                if not gate.cv.wait(timeout=180):
                     return None
             live = [i for i in range(len(ths)) if not done[i]]
             if not live:
